@@ -18,7 +18,10 @@ THEOREMS = ["Pfl.CFG.mem_generating_iff",
             "Pfl.CFG.getWords_exact_unbounded",
             "Pfl.CFG.isFinite_iff",
             "Pfl.CFG.cfgMem_iff",
-            "Pfl.CFG.mem_langUpTo_iff"]
+            "Pfl.CFG.mem_langUpTo_iff",
+            "Pfl.CFG.genCounters_generating",
+            "Pfl.CFG.genCounters_nullable",
+            "Pfl.CFG.genCounters_restores"]
 
 
 def generate(rng, tier):
@@ -49,6 +52,7 @@ def run_case(case, drv):
         if got != ("ok", want):
             res.violation(pyname, "differs from the exact symbol class",
                           detail={"impl": got, "spec": want})
+    G.counter_tie(cfg, drv, res)
     got = outcome(cfg.is_empty)
     res.evals += 1
     if got != ("ok", cl["isEmpty"]):
